@@ -1,6 +1,7 @@
 """C03 — parsing is total: any text, any valid configuration, never an exception."""
 import descs
 import gen
+import lexfacts
 from common import Rng
 
 import pytrs
@@ -65,6 +66,7 @@ def run(ctx):
         layout = r.choice([None, None, None, None] + gen.LAYOUTS + ['copy_all'])
         entry = r.choice(['desc', 'desc', 'desc_wait', 'tract', 'tract_trs'])
         run_entry(rep, text, cfg, layout, entry)
+        lexfacts.check_text(rep, text, lots=entry.startswith('tract'))
         rep.count()
         if text.strip():
             rep.nontrivial((text, cfg, layout, entry))
@@ -90,6 +92,7 @@ def run(ctx):
     items.append(descs.corr_item('x', cfg='bogus_setting'))
     items.append(descs.corr_item('x', cfg='default_ns.q'))
     items.append(descs.corr_item('x', cfg=3))
+    lexfacts.record(rep)
     ctx.compare(items)
 
 
